@@ -81,7 +81,7 @@ func registerStrings(e *Engine) {
 			s.assume(implies(app("clean", a[0].S), app("allClean", inner)))
 			s.c.declare("joinNL", "(declare-fun joinNL ((Array Int Str) Int Int) Str)")
 			s.assume(eq(app("joinNL", inner, "0", n), a[0].S))
-			if s.c.useLines || s.c.cellsMode {
+			{
 				k := fmt.Sprintf("k!%d", s.c.fresh)
 				s.c.fresh++
 				el := sel(inner, k)
@@ -179,6 +179,8 @@ func registerStrings(e *Engine) {
 		s.oblige("lib-pre:strings.Repeat", site, s.c.ordinal(site, "lib-pre:strings.Repeat"), app("<=", "0", n), "strings.Repeat: negative Repeat count", false)
 		s.assume(app("<=", "0", n))
 		r := s.freshStr("repeat")
+		s.c.declare("repeatS", "(declare-fun repeatS (Str Int) Str)")
+		s.assume(eq(r.S, app("repeatS", a[0].S, n)))
 		if lit, ok := constString(callArg(site, 0)); ok {
 			okc, vis := refCells(lit)
 			s.assume(eq(app("nl", r.S), app("*", fmt.Sprint(strings.Count(lit, "\n")), n)))
@@ -238,7 +240,8 @@ func registerStrings(e *Engine) {
 			for _, p := range []string{"clean", "wf"} {
 				s.assume(implies(app(p, a[0].S), app(p, r.S)))
 			}
-			s.c.declare("linesOK", "(declare-fun linesOK (Str Int) Bool)")
+			// only bare spaces/newlines at the ends go away: no line gets longer, no non-blank cell is lost
+			s.assume(implies(app("wf", a[0].S), and(app("<=", app("mxl", r.S), app("mxl", a[0].S)), app("<=", "0", app("mxl", r.S)), eq(app("nsc", r.S), app("nsc", a[0].S)))))
 		}
 		return []Val{r}
 	}
